@@ -484,6 +484,8 @@ def main(tier, seed):
         vt = open(vp).read()
         if re.search(r"\bAS\s+\w+", vt):
             continue                      # aliased imports are an open finding (decl.exp shows it)
+        if re.search(r"^-- known: ", vt, re.M):
+            continue                      # a valid schema the parser rejects (open finding of C04): nothing to print
         hist["valid_corpus"] = hist.get("valid_corpus", 0) + 1
         roundtrip("vc_" + os.path.basename(vp)[:-4], vt, lengths[:3], "rich")
     dpath = os.path.join(VERIF, "corpus", "C07", "decl.exp")
